@@ -12,17 +12,25 @@
        is a present static policy; template_to_links = exactly the inverse image) + API maps =
        projection of the core maps.  `_partial`: merge is not covered (not proved).
      c08_wf_step_core : the same for ast::PolicySet under the VISIBLE precondition core_ok (no slot-less
-       template added as template, no link to a slot-less template, no re-add of a template-linked
-       policy object, no merge); c08_wf_refuted_without_it : without it the faithful model loses the
-       invariant (witness add_static s; link s->n; remove_static s — replays on ast::PolicySet, and
-       through PolicySet::from_json_value on the public API, see notes/C08.md).
+       template added as template, no re-add of a template-linked policy object, no merge; since the
+       fix 3c064e2 `link` needs no precondition — c08_link_static_body_refused);
+       c08_wf_refuted_without_it : without it the faithful model loses the invariant (witness
+       add_template t; link t->x; unlink x; add_template x; add(unlinked object x): x is both a template
+       and a template-linked policy — core level only, the API refuses to `add` a linked policy).
      c08_link_subst_partial : for every request, store, template, binding and link id, evaluating the
        linked policy (slot environment of Eval.v) = evaluating the static policy obtained by writing the
        bound entity in place of each slot (subst_slots); unbound slots give ErrUnlinkedSlot on both sides.
        `_partial`: the hypothesis body_closed (the when/unless body evaluates independently of the slot
        environment — the parser rejects slots there) is semantic, not derived from a syntactic check.
-   NOT proved: refinement to the abstract map as a separate statement, merge properties. *)
-From Cedar Require Import PolicySet PolicySetProofs PolicySetWF PolicySetSubst.
+     c08_refines : refinement of the six core operations to the abstract finite map
+       abs_of : id -> static body | template | link(template id, values): each successful operation is the
+       abstract put/delete, and (under WF) it succeeds exactly when the abstract precondition holds
+       (add*: id free; link: entry is a template, exact binding, id free; unlink: entry is a link;
+       remove_static: entry is static; remove_template: entry is a template no link names);
+       c08_policies_exact : the policies authorization iterates over (`ps_links`) are exactly the static
+       bodies and links of the abstract map.
+   NOT proved: merge (invariant preservation, contents = a U rho(b), rho injective/fresh). *)
+From Cedar Require Import PolicySet PolicySetProofs PolicySetWF PolicySetSubst PolicySetRefine.
 
 Theorem c08_fail_noop_api : forall h o h' e r, api_step h o = (h', (OErr e, r)) -> h' = h.
 Proof. exact api_step_fail_noop. Qed.
@@ -34,7 +42,8 @@ Print Assumptions c08_fail_noop_core.
 
 Theorem c08_link_arity : forall s tmpl new env,
   (exists s', ps_link s tmpl new env = OOk s') <->
-  (exists t, alookup tmpl (ps_templates s) = Some t /\ check_binding t env = true /\ bound s new = false).
+  (exists t, alookup tmpl (ps_templates s) = Some t /\ (t_is_static t && amem tmpl (ps_links s)) = false /\
+             check_binding t env = true /\ bound s new = false).
 Proof. exact ps_link_ok_iff. Qed.
 Print Assumptions c08_link_arity.
 
@@ -75,6 +84,60 @@ Theorem c08_link_subst_partial : forall q es t env i,
   eval_policy q es (mkPolicy t (Some i) env) = eval_policy q es (static_of (subst_slots env t)).
 Proof. exact link_subst. Qed.
 Print Assumptions c08_link_subst_partial.
+
+(* 3c064e2: the body of a present static policy is not a link target (the former refutation witness) *)
+Theorem c08_link_static_body_refused : forall s t new env,
+  alookup (tid t) (ps_templates s) = Some t -> t_is_static t = true -> amem (tid t) (ps_links s) = true ->
+  ps_link s (tid t) new env = OErr ENoSuchTemplate.
+Proof. exact link_static_body_refused. Qed.
+Print Assumptions c08_link_static_body_refused.
+
+Theorem c08_refines : forall s, WF s ->
+  (forall t s', ps_add_static s t = OOk s' -> forall i, abs_of s' i = aput (abs_of s) (tid t) (AStatic t) i) /\
+  (forall t, (exists s', ps_add_static s t = OOk s') <-> abs_of s (tid t) = None) /\
+  (forall t s', ps_add_template s t = OOk s' -> forall i, abs_of s' i = aput (abs_of s) (tid t) (ATemplate t) i) /\
+  (forall t, (exists s', ps_add_template s t = OOk s') <-> abs_of s (tid t) = None) /\
+  (forall tmpl new env s', ps_link s tmpl new env = OOk s' ->
+      forall i, abs_of s' i = aput (abs_of s) new (ALink tmpl env) i) /\
+  (forall tmpl new env, (exists s', ps_link s tmpl new env = OOk s') <->
+      (exists t, abs_of s tmpl = Some (ATemplate t) /\ check_binding t env = true /\ abs_of s new = None)) /\
+  (forall i s' p, ps_unlink s i = OOk (s', p) -> forall j, abs_of s' j = adel (abs_of s) i j) /\
+  (forall i, (exists r, ps_unlink s i = OOk r) <-> (exists t e, abs_of s i = Some (ALink t e))) /\
+  (forall i s' p, ps_remove_static s i = OOk (s', p) -> forall j, abs_of s' j = adel (abs_of s) i j) /\
+  (forall i, (exists r, ps_remove_static s i = OOk r) <-> (exists t, abs_of s i = Some (AStatic t))) /\
+  (forall i s', ps_remove_template s i = OOk s' -> forall j, abs_of s' j = adel (abs_of s) i j) /\
+  (forall i, (exists s', ps_remove_template s i = OOk s') <->
+      ((exists t, abs_of s i = Some (ATemplate t)) /\ forall j e, abs_of s j <> Some (ALink i e))).
+Proof.
+  intros s W.
+  split; [intros; eapply add_static_refines; eauto|].
+  split; [intros; apply add_static_ok_iff|].
+  split; [intros; eapply add_template_refines; eauto|].
+  split; [intros; apply add_template_ok_iff|].
+  split; [intros; eapply link_refines; eauto|].
+  split; [intros; apply link_ok_iff; exact W|].
+  split; [intros; eapply unlink_refines; eauto|].
+  split; [intros; apply unlink_ok_iff; exact W|].
+  split; [intros; eapply remove_static_refines; eauto|].
+  split; [intros; apply remove_static_ok_iff; exact W|].
+  split; [intros; eapply remove_template_refines; eauto|].
+  intros; apply remove_template_ok_iff; exact W.
+Qed.
+Print Assumptions c08_refines.
+
+Theorem c08_policies_exact : forall s i,
+  (forall p, alookup i (ps_links s) = Some p ->
+     abs_of s i = Some (match plink p with None => AStatic (ptemplate p) | Some _ => ALink (tid (ptemplate p)) (penv p) end)) /\
+  (alookup i (ps_links s) = None -> abs_of s i = None \/ exists t, abs_of s i = Some (ATemplate t)).
+Proof. intros s i. split; [intros p; apply policies_exact | apply policies_only]. Qed.
+Print Assumptions c08_policies_exact.
+
+(* merge, the part that is proved: without renaming a successful merge renamed nothing (any conflict is
+   an error, and by c08_fail_noop_* the set is then unchanged); with renaming merge always succeeds *)
+Theorem c08_merge_partial : forall a b,
+  (forall s' r, ps_merge a b false = OOk (s', r) -> r = []) /\ (exists s' r, ps_merge a b true = OOk (s', r)).
+Proof. intros a b. split; [apply ps_merge_norename | apply ps_merge_rename_total]. Qed.
+Print Assumptions c08_merge_partial.
 
 (* consequences of the invariant, in the property's words *)
 Theorem c08_no_shared_id : forall s i p t, WF s ->
